@@ -59,7 +59,7 @@ def build(repo):
                                         2: dict(iter_name='it', invariant=['__ls <= __e <= source@.len()', 'label@ == source@.subrange(__ls as int, __e as int)',
                                                                            'passed_chars == __ls + it.index@', 'source@.len() * 8 <= usize::MAX'])}))
     # lex_hostport: `source.iter().enumerate().find(|(_, c)| ..).map(|(i, _)| i)` is desugared (R19) into the first-index scan it denotes
-    U.fn(F, 'lex_hostport', dict(result='r', props=P, fwd_find_index=True, ensures=['r matches Some(n) ==> n <= source@.len()']))
+    U.fn(F, 'lex_hostport', dict(result='r', props=P, fwd_find_index='if_present', ensures=['r matches Some(n) ==> n <= source@.len()']))
     # lex_email_address: the search for the last '@' (`iter().enumerate().rev().find(..)`) is desugared (R11); whether the local part
     # is acceptable (validate_local_part: tuple_windows / iterator code) is an arbitrary total bool here
     U.raw('#[verifier::external_body] fn validate_local_part(local_part: &[char]) -> bool { unimplemented!() }', name='assumed:validate_local_part')
